@@ -1,5 +1,6 @@
 import RimeModel.Session.Commit
 import RimeModel.Session.InvProc
+import RimeModel.Session.PunctComposeOK
 /-!
 C03 — what is committed is what was shown, and it is delivered exactly once.  Property theorems only.
 Model: RimeModel/Session/* (see C02).  `env.format` is the shape formatter (identity when full_shape is off).
@@ -79,6 +80,34 @@ theorem commit_clears (env : Env) (he : ComposeEmptySpec env.recompose) (c : Ctx
 theorem commit_clears_concrete (env : Env) (cfg : SegCfg) (henv : env.recompose = compose cfg) (c : Ctx)
     (hc : c.isComposing = true) : (apiStep env c .commitComposition).1.isComposing = false :=
   (commit_clears env (by rw [henv]; exact compose_empty_spec cfg) c hc).1
+
+/-- (c) for schemas with the punctuation components (`composeP`) -/
+theorem commit_clears_punct (env : Env) (cfg : PSegCfg) (henv : env.recompose = composeP cfg) (c : Ctx)
+    (hc : c.isComposing = true) : (apiStep env c .commitComposition).1.isComposing = false :=
+  (commit_clears env (by rw [henv]; exact composeP_empty_spec cfg) c hc).1
+
+/-- (a) for the punctuator's own commit: a `{commit: x}` definition (Punctuator::AutoCommitPunct, run on the state
+the key press has just produced) delivers exactly the formatted preview of that state and nothing else -/
+theorem punct_autocommit_eq_preview (env : Env) (key : Bool × UInt8) (t : Bytes) (c : Ctx) (hc : c.isComposing = true) :
+    (punctFinish env key (.commit t) c).commitBuf = c.commitBuf ++ env.format (view env c).preview := by
+  show (Ctx.commit env c).1.commitBuf = _
+  unfold Ctx.commit view
+  simp only [hc, Bool.not_true, Bool.false_eq_true, if_false, if_true]
+  rfl
+
+/-- non-vacuity: `a` then `.` (`{commit: 。}`) in a fluid schema — the punctuator's commit delivers the preview shown after
+the key was added to the input (`A。`), at once and once -/
+example :
+    let m : List (UInt8 × PunctDef) := [(46, .commit [0xe3, 0x80, 0x82])]
+    let cfg : PSegCfg := { alphabet := [97], initials := [97], finals := [], delimiters := [],
+                           translate := fun _ g => if g.tags.abc then [Cand.mk [65] [] [] g.start g.stop true] else [], punct := m }
+    let env : Env := { pageSize := 5, alphabet := [97], initials := [97], processors := [.speller, .punctuator, .selector, .fluidEditor],
+                       punct := { half := m }, recompose := composeP cfg }
+    let c := runOps env {} [.key 97 0]
+    let c1 := Ctx.pushInput env c 46
+    (view env c1).preview = [65, 0xe3, 0x80, 0x82] ∧ punctTranslated c1 = true ∧
+    (runOps env c [.key 46 0]).commitBuf = [65, 0xe3, 0x80, 0x82] ∧ (runOps env c [.key 46 0]).isComposing = false := by
+  decide
 
 /-- (d) `get_commit` returns the whole buffer and empties it; with an empty buffer it returns nothing -/
 theorem read_returns_buffer (env : Env) (c : Ctx) (h : c.commitBuf ≠ []) :
